@@ -158,7 +158,7 @@ func runTokProject(p tokProject, banned ...directive.Enumeration) string {
 		content, _ := os.ReadFile(rootPath)
 		var oo []core.Option
 		if len(banned) > 0 {
-			oo = append(oo, core.WithBannedDirectives(banned...))
+			oo = append(oo, banOptions(banned)...)
 		}
 		c := core.NewJApiCore(fs.NewFile(rootPath, content), oo...)
 		if je := c.VerifScanOnly(); je != nil {
